@@ -1266,3 +1266,117 @@ _run10 = run
 def run(ctx, rep, tier):
     _run10(ctx, rep, tier)
     _round3_c18(ctx, rep, tier)
+
+
+# ---------------------------------------------------------------------------------------------------------------- C18.x / y
+def _attributes_and_arity(ctx, rep, tier):
+    """C18.x: every `self.<attr>` read names an attribute or method that the class, one of its bases or one of its subclasses establishes
+    (AttributeError otherwise). C18.y: every call whose callee resolves statically (self.method through the MRO, Class(...), Class.method(...),
+    module-level function) passes arguments its signature accepts (TypeError otherwise). Both are 'internal exception' shapes that no input-level
+    reasoning is needed for; they hold trivially today and catch renames that miss a use."""
+    model = ctx.model
+    rep.rule("C18.x", "every self.<attr> read is established by the class, a base or a subclass")
+    est = {}
+
+    def established(cn):
+        if cn in est:
+            return est[cn]
+        out = set()
+        for k in model.mro(cn):
+            ci = model.classes.get(k)
+            if not ci:
+                continue
+            out |= set(ci.attrs) | set(ci.methods)
+            for f in ci.methods.values():
+                for n in ast.walk(f):
+                    if isinstance(n, (ast.Assign, ast.AugAssign, ast.AnnAssign)):
+                        for t in (n.targets if isinstance(n, ast.Assign) else [n.target]):
+                            for e in ast.walk(t):
+                                if isinstance(e, ast.Attribute) and isinstance(e.value, ast.Name) and e.value.id in ("self", "cls"):
+                                    out.add(e.attr)
+        est[cn] = out
+        return out
+    nx = 0
+    for cn, ci in model.classes.items():
+        if any(b not in model.classes and b not in ("object", "abc.ABC", "enum.Enum", "Exception", "int", "type") for b in ci.bases):
+            continue      # inherits from a library class: its attributes are not visible here
+        have = set(established(cn))
+        for sub in model.subclasses(cn):
+            have |= established(sub)
+        for mn, f in ci.methods.items():
+            for n in ast.walk(f):
+                if isinstance(n, ast.Attribute) and isinstance(n.value, ast.Name) and n.value.id in ("self", "cls") and isinstance(n.ctx, ast.Load) and not n.attr.startswith("__"):
+                    nx += 1
+                    if n.attr not in have:
+                        rep.bad("C18.x", f"{cn}.{mn}", f"self.{n.attr}", f"`self.{n.attr}` is read in {cn}.{mn} but no method of {cn}, its bases or its subclasses establishes it: AttributeError", line=n.lineno)
+    rep.bulk_ok("C18.x", nx)
+    if nx < 500:
+        raise AnalysisError(f"C18.x: only {nx} attribute reads examined")
+    rep.rule("C18.y", "statically resolvable calls pass arguments their callee's signature accepts")
+
+    def sig(f, bound):
+        a = f.args
+        pos = [x.arg for x in a.posonlyargs + a.args]
+        if bound and pos:
+            pos = pos[1:]
+        req = len(pos) - len(a.defaults)
+        kwonly = [x.arg for x in a.kwonlyargs]
+        kwreq = [x.arg for x, d in zip(a.kwonlyargs, a.kw_defaults) if d is None]
+        return pos, req, a.vararg is not None, a.kwarg is not None, kwonly, kwreq
+    ny = 0
+
+    def check(call, f, bound, where, what):
+        nonlocal ny
+        if any(isinstance(x, ast.Starred) for x in call.args) or any(k.arg is None for k in call.keywords):
+            return
+        ny += 1
+        pos, req, var, kw, kwonly, kwreq = sig(f, bound)
+        npos = len(call.args)
+        kws = [k.arg for k in call.keywords]
+        why = None
+        if npos > len(pos) and not var:
+            why = f"{npos} positional arguments for {len(pos)} parameters"
+        bad_kw = [k for k in kws if k not in pos and k not in kwonly and not kw]
+        if bad_kw:
+            why = f"unknown keyword(s) {bad_kw}"
+        dup = [k for k in kws if k in pos[:npos]]
+        if dup:
+            why = f"{dup} given twice"
+        missing = [p for p in pos[:req] if p not in set(pos[:npos]) | set(kws)] + [k for k in kwreq if k not in kws]
+        if missing:
+            why = f"missing {missing}"
+        if why:
+            rep.bad("C18.y", where, what, f"`{ast.unparse(call)[:80]}`: {why} - TypeError when this call runs", line=call.lineno)
+    for q, f in model.functions.items():
+        cls = q.split(".")[0] if q.split(".")[0] in model.classes else None
+        for call in ast.walk(f):
+            if not isinstance(call, ast.Call):
+                continue
+            fn = call.func
+            if isinstance(fn, ast.Attribute) and isinstance(fn.value, ast.Name) and fn.value.id == "self" and cls:
+                o, mf = model.resolve_method(cls, fn.attr)
+                if mf is not None and not any(model.classes[s].methods.get(fn.attr) is not None and model.classes[s].methods[fn.attr] is not mf for s in model.subclasses(cls, include_self=False)):
+                    check(call, mf, "staticmethod" not in [ast.unparse(d) for d in mf.decorator_list], q, f"self.{fn.attr}(..)")
+            elif isinstance(fn, ast.Name) and fn.id in model.classes:
+                o, mf = model.resolve_method(fn.id, "__init__")
+                if mf is not None:
+                    check(call, mf, True, q, f"{fn.id}(..)")
+            elif isinstance(fn, ast.Name) and fn.id in model.functions and "." not in fn.id:
+                check(call, model.functions[fn.id], False, q, f"{fn.id}(..)")
+            elif isinstance(fn, ast.Attribute) and isinstance(fn.value, ast.Name) and fn.value.id in model.classes:
+                o, mf = model.resolve_method(fn.value.id, fn.attr)
+                if mf is not None:
+                    decs = [ast.unparse(d) for d in mf.decorator_list]
+                    if "classmethod" in decs or "staticmethod" in decs:
+                        check(call, mf, "classmethod" in decs, q, f"{fn.value.id}.{fn.attr}(..)")
+    rep.bulk_ok("C18.y", ny)
+    if ny < 300:
+        raise AnalysisError(f"C18.y: only {ny} resolvable calls examined")
+
+
+_run11 = run
+
+
+def run(ctx, rep, tier):
+    _run11(ctx, rep, tier)
+    _attributes_and_arity(ctx, rep, tier)
